@@ -31,9 +31,10 @@ def run(prog, chk):
     non_contributors(prog, chk)
     degenerate_boxes(prog, chk)
     use_translation(prog, chk)
+    clip_result_stored_whole(prog, chk)
     from props import geomalg
     geomalg.check_sites(prog, chk, "C08")
-    geomalg.check(prog, chk, "C08", floor=19)
+    geomalg.check(prog, chk, "C08", floor=27)
 
 
 def _lit(body, t, i):
@@ -248,3 +249,33 @@ def use_translation(prog, chk):
     # sanity of the decider: with both absent the translation must be unreachable (otherwise the rule decides nothing)
     both = {bb: 0 for k in gets for bb in gets[k]}
     chk.ob(not R.may_reach(b, tr, R.option_assumption(b, both)), "A13.use-translation", "get_clipped_bbox:decider-sanity", b.where(), "decider sanity: with neither x nor y the translation is not reached", "the presence tests on x / y are not understood by the rule (translation reachable with both absent): rule cannot decide")
+
+
+def clip_result_stored_whole(prog, chk):
+    """when an element has a clip path, its contribution *is* the intersection with the clip box - including `None`
+    when the two are disjoint: the Option returned by intersect() is stored as it is, never tested and re-wrapped"""
+    b = prog.body("<svgdx::element::SvgElement as svgdx::transform::EventGen>::generate_events")
+    chk.touch(b)
+    calls = b.call_sites(R.path_endswith("BoundingBox::intersect"))
+    chk.floor("A13.clip-none", len(calls), 1, "BoundingBox::intersect call in SvgElement::generate_events")
+    for (bb, t, c) in calls:
+        dest = t["dest"][0]
+        tested = False
+        work, seen = [dest], set()
+        while work:
+            l = work.pop()
+            if l in seen:
+                continue
+            seen.add(l)
+            for (ub, ui, node, how) in R.uses_of(b, l):
+                if ui != R.TERM and "rv" in node:
+                    rv = node["rv"]
+                    if rv["k"] == "discr":
+                        tested = True
+                    elif rv["k"] in ("use", "ref") and not node["lhs"][1] and op_place(rv.get("op")) and not op_place(rv.get("op"))[1]:
+                        # whole-value copy / move into a temporary (not into the element's named field)
+                        if b.local_name(node["lhs"][0]) is None:
+                            work.append(node["lhs"][0])
+                elif ui == R.TERM and node.get("k") == "call" and "fn" in node and Callee(node["fn"]).path.split("::")[-1] in ("is_some", "is_none", "map", "and_then", "or", "unwrap_or", "filter"):
+                    tested = True
+        chk.ob(not tested, "A13.clip-none", "SvgElement:generate_events:intersect", b.where(bb, t.get("line")), "the clipped box is the result of intersect() as returned (None when element and clip path are disjoint)", "the result of intersect() is tested before it is stored: when element and clip path are disjoint the unclipped box is kept, so invisible content enlarges the root extent")
